@@ -47,7 +47,8 @@ META = {
                 "TLC-simulated schedules and random headers/payloads (every length 0..13, longer ones, all ready "
                 "patterns); TLC validates every emitted word and `done`, and the accepted words are replayed into "
                 "the real RawHeaderPacketReceiver / DataPacketReceiver whose outputs TLC compares with what was sent.",
-        "note": "Free: up to 2 (stack: 16) cycles before HPSTART, when payload words are taken. Env: header and "
+        "note": "Free: up to 2 (stack: 16) cycles before HPSTART, when payload words are taken. Env: the header is the "
+                "one present at the generate strobe (the input may change afterwards, swept over offsets 0..10), "
                 "payload stream held until taken, payload contiguous. The stack's header sequence number is taken as "
                 "observed. Only the first good/bad report of the data receiver is judged (exactly-once is C40).",
         "technique": "TLA+ wire-format spec, TLC exhaustive + batch trace validation of pysim traces, real-receiver round trip",
@@ -59,7 +60,7 @@ META = {
                 "verdict per data packet, good iff all three CRCs are right, and the payload stream must carry "
                 "exactly data-length bytes. TLC explores every placement of not-valid words, every CRC corruption "
                 "combination, lengths 0..4 (0..9 thorough) and following packets, and proves exactly-once on the specification. The "
-                "real DataPacketReceiver is fed TLC-generated streams and random packets (lengths 0..13, 16, 33, "
+                "real DataPacketReceiver is fed TLC-generated streams and random packets (lengths 0..13, 16, 33, 1020..1024, "
                 "corrupted CRCs, truncated payloads, not-valid words with any data at any position, following idle / "
                 "link command / header traffic; every ordered pair 'packet of kind X, then two good packets' for X in "
                 "good / corrupted CRC-32, CRC-16, CRC-5 / payload ended by DPPEND or DPPABORT in any word / zero-length / "
@@ -317,7 +318,8 @@ def check_C35(rep):
     if not quick:
         runs.append(({"Cmds": tla_set([0, 5, 15]), "Subs": tla_set([0, 9]), "Corrs": allc, "MaxCmds": 1}, "6 commands, all corruptions"))
         runs.append(({"Cmds": tla_set([5, 10]), "Subs": tla_set([9, 6]), "Corrs": tla_set([0, 1, 33, 40]), "MaxCmds": 3}, "three commands"))
-    for sub, label in runs:
+    for ri, (sub, label) in enumerate(runs):
+        sub = dict(sub, CheckStatic="TRUE" if ri == 0 else "FALSE")
         _mc(rep, "MCLinkCommand", tlc.render_cfg(_cfg("MCLinkCommand.cfg.tmpl"), sub),
             "MCLinkCommand (%s) + static theorems over all 16x16 commands x 52 corruptions" % label,
             {k: str(v) for k, v in sub.items()})
@@ -332,8 +334,9 @@ def check_C35(rep):
         return recs
 
     # 2a. spec -> code: TLC-simulated schedules of the composition
-    sim_cfg = tlc.render_cfg(_cfg("MCLinkCommand_sim.cfg.tmpl"),
-                             {"Cmds": tla_set(range(16)), "Subs": tla_set(range(16)), "Corrs": allc, "MaxCmds": 3})
+    sim_cfg = tlc.render_cfg(_cfg("MCLinkCommand_sim.cfg.tmpl"),     # (all 256 pairs are swept in 2b)
+                             {"Cmds": tla_set(rng.sample(range(16), 4)), "Subs": tla_set(rng.sample(range(16), 4)),
+                              "Corrs": tla_set([0] + rng.sample(range(1, 53), 9)), "MaxCmds": 3})
     behs = tlc.simulate(SPEC_DIR, "MCLinkCommand", sim_cfg, num=40 if quick else 300, depth=30, seed=rep.seed, timeout=1200)
     for b in behs:
         stim = []
@@ -552,18 +555,24 @@ class RawTxBench:
                     ctx.set(tx.source.ready, 1)
                     cyc()
                     await ctx.tick("ss")
-                dw = h["dw"]
-                ctx.set(tx.header.dw0, sum(b << (8 * i) for i, b in enumerate(dw[0:4])))
-                ctx.set(tx.header.dw1, sum(b << (8 * i) for i, b in enumerate(dw[4:8])))
-                ctx.set(tx.header.dw2, sum(b << (8 * i) for i, b in enumerate(dw[8:12])))
-                ctx.set(tx.header.sequence_number, h["seq"])
-                ctx.set(tx.header.dw3_reserved, h["rsv"])
-                ctx.set(tx.header.hub_depth, h["hub"])
-                ctx.set(tx.header.delayed, h["dl"])
-                ctx.set(tx.header.deferred, h["df"])
+                def set_header(hh):
+                    dw = hh["dw"]
+                    ctx.set(tx.header.dw0, sum(b << (8 * i) for i, b in enumerate(dw[0:4])))
+                    ctx.set(tx.header.dw1, sum(b << (8 * i) for i, b in enumerate(dw[4:8])))
+                    ctx.set(tx.header.dw2, sum(b << (8 * i) for i, b in enumerate(dw[8:12])))
+                    ctx.set(tx.header.sequence_number, hh["seq"])
+                    ctx.set(tx.header.dw3_reserved, hh["rsv"])
+                    ctx.set(tx.header.hub_depth, hh["hub"])
+                    ctx.set(tx.header.delayed, hh["dl"])
+                    ctx.set(tx.header.deferred, hh["df"])
+                set_header(h)
                 ctx.set(tx.header.crc16, pk.get("junk16", 0))      # documented as ignored
                 ctx.set(tx.header.crc5, pk.get("junk5", 0))
                 words = payload_words(pl) if pk.get("present", True) else []
+                # after the strobe the header input may switch to the next packet's header (as it does inside
+                # PacketTransmitter when its read pointer moves); that packet's payload may already be waiting
+                wig = pk.get("wiggle")
+                alt_words = payload_words(wig[2]) if (wig and wig[2] and not words) else []
                 wi = 0
                 sent = []
                 n = 0
@@ -573,6 +582,11 @@ class RawTxBench:
                     rdy = bool(pk["rdy"](n))
                     ctx.set(tx.generate, int(gen))
                     ctx.set(tx.source.ready, int(rdy))
+                    if wig and n == 1 + wig[0]:
+                        set_header(wig[1])
+                    if wig and n >= 1 + wig[0] and alt_words:
+                        words, wi = alt_words, 0
+                        alt_words = []
                     if wi < len(words):
                         m_, d_, last_ = words[wi]
                         ctx.set(tx.data_sink.valid, m_)
@@ -747,8 +761,11 @@ def check_C36(rep):
     rng = rep.rng
     rep.rule = ("packets sent by the real transmitter and validated word by word by TLC, then received by the real "
                 "link receivers; distinct by (DUT, header type, payload length mod 4, payload length, delayed, stalled?)")
-    rep.assume("header inputs and the payload stream's valid mask / data are held by the protocol layer until taken; "
-               "payload words are contiguous (1111 masks, then one partial or full word flagged last)")
+    rep.assume("generate is a one-cycle strobe (or held: ignored while busy); the packet is the header present at the "
+               "strobe, afterwards the header input may change to any other header (data <-> non-data) at any cycle; "
+               "the payload stream's valid mask / data are held until taken; payload words are contiguous (1111 masks, "
+               "then one partial or full word flagged last); a following packet's payload may already wait on the "
+               "stream while a non-data packet is sent")
     rep.assume("the sequence number of headers sent by PacketTransmitter is whatever it assigns (C39 decides that); "
                "CRC-5 / CRC-16 are checked over the observed value")
     rep.assume("bytes between EPF and the word boundary must be logical idle (D0.0)")
@@ -773,9 +790,9 @@ def check_C36(rep):
             rep.nontriv(("raw", pk["hdr"]["dw"][0] & 31, len(pk["pl"]) % 4, len(pk["pl"]), pk["hdr"]["dl"]))
 
     # spec -> code: TLC-simulated schedules (header family of the model, every length 0..9)
-    sim_cfg = tlc.render_cfg(_cfg("MCPacketTx.cfg.tmpl"), {"MaxLen": 9, "MaxPackets": 3, "MaxLat": 1})
+    sim_cfg = tlc.render_cfg(_cfg("MCPacketTx.cfg.tmpl"), {"MaxLen": 6 if quick else 9, "MaxPackets": 3, "MaxLat": 1})
     sim_cfg = "\n".join(l for l in sim_cfg.splitlines() if not l.startswith("INVARIANT"))
-    behs = tlc.simulate(SPEC_DIR, "MCPacketTx", sim_cfg, num=16 if quick else 200, depth=60, seed=rep.seed, timeout=1200)
+    behs = tlc.simulate(SPEC_DIR, "MCPacketTx", sim_cfg, num=10 if quick else 200, depth=50, seed=rep.seed, timeout=1200)
     for b in behs:
         packets = []
         cur = None
@@ -825,6 +842,27 @@ def check_C36(rep):
                 packets.append({"hdr": hd, "pl": pl, "rdy": rdy_pattern(rng), "hold": 1, "gap": 1, "present": False})
         for i in range(0, len(packets), 6):
             run_raw(packets[i:i + 6], "random")
+
+    # the header input switches to another header (data <-> non-data in particular) at every offset 0..10 after the
+    # one-cycle strobe, with PHY stalls; the packet sent must be the one requested at the strobe
+    offsets = list(range(0, 11))
+    rng.shuffle(offsets)
+    packets = []
+    for oi, off in enumerate(offsets if quick else offsets * 4):
+        n = rng.choice([0, 1, 2, 3, 4, 5, 7])
+        pl = [rng.getrandbits(8) for _ in range(n)]
+        alt_n = rng.randrange(1, 9)
+        alt_pl = [rng.getrandbits(8) for _ in range(alt_n)]
+        data_first = (oi % 2 == 0)
+        if data_first:       # a data packet (often zero-length) while the input turns into a transaction packet header
+            pk = {"hdr": random_header(rng, 8, n), "pl": pl, "wiggle": (off, random_header(rng, rng.choice([0, 4, 12])), None)}
+        else:                # a non-data packet while the input turns into a data header whose payload is waiting
+            pk = {"hdr": random_header(rng, rng.choice([0, 4, 12])), "pl": [], "present": False,
+                  "wiggle": (off, random_header(rng, 8, alt_n), alt_pl)}
+        pk.update(rdy=rdy_pattern(rng), hold=1, gap=rng.randrange(1, 3))
+        packets.append(pk)
+    for i in range(0, len(packets), 6):
+        run_raw(packets[i:i + 6], "header-input-changes")
 
     # the stack DataPacketTransmitter -> PacketTransmitter
     stack = StackTxBench()
@@ -1130,6 +1168,15 @@ def check_C40(rep):
                 rep.add_eval(len(recs))
                 witness.append((recs, {"class": "pairs", "origin": "%s(len %d)->good->good mode %d" % (name, n, mode)}))
                 rep.nontriv(("pair", name, n % 4, mode, sum(r["good"] for r in recs), sum(r["bad"] for r in recs)))
+
+    # boundary lengths up to the maximum packet size (1024): good and corrupted CRC-32, with / without not-valid
+    # words, each followed by a short good packet  (TLC's bit-serial CRC-32 costs ~1.5 ms per byte: few of them)
+    big = [(1024, True, 0.0), (1024, False, 0.05), (1023, True, 0.05), (1022, True, 0.0), (1021, False, 0.0), (1020, True, 0.05)]
+    if not quick:
+        big += [(n, g, gp) for n in (1024, 1023, 1022, 1021, 1020, 1019, 1017, 1000, 513, 512) for g in (True, False) for gp in (0.0, 0.05)]
+    for n, good, gp in big:
+        run([{"len": n, "c32": good, "follow": rng.choice(["none", "idle"])}, {"len": rng.randrange(1, 9)}], gp, False,
+            "witness-A", "max-size-boundary")
 
     # spec -> code: streams generated by TLC from the model's Env (they contain good packets: witness class)
     sim_cfg = tlc.render_cfg(_cfg("MCDataRx.cfg.tmpl"), {"MaxLen": 9, "MaxPackets": 3, "MaxGaps": 4})
